@@ -42,7 +42,7 @@ func c13Msg(s *EnumSpec, v []int) *WMsg {
 		"alias-noport": "<sip:proxy.example.com;lr>", "addr-noport": "<sip:127.0.0.1;lr>", "wrong-port": "<sip:127.0.0.1:5099;lr>",
 		"foreign-host-right-port": "<sip:127.0.2.2:" + lport + ";lr>", "other-listener": "<sip:127.0.0.2:5060;lr>", "other-listener-alias": "<sip:proxy2.example.com:5060;lr>",
 		"other-service": "<sip:127.0.0.3:5060;lr>",
-		"own-display": "Me <sip:127.0.0.1:" + lport + ";lr>", "own-hdrpar": "<sip:127.0.0.1:" + lport + ";lr>;x=1", "own-user": "<sip:px@127.0.0.1:" + lport + ";lr>",
+		"own-display":   "Me <sip:127.0.0.1:" + lport + ";lr>", "own-hdrpar": "<sip:127.0.0.1:" + lport + ";lr>;x=1", "own-user": "<sip:px@127.0.0.1:" + lport + ";lr>",
 		"own-nolr": "<sip:127.0.0.1:" + lport + ">",
 	}[s.Val(v, "first")]
 	var entries []string
@@ -79,14 +79,6 @@ func c13Msg(s *EnumSpec, v []int) *WMsg {
 	tr := strings.ToUpper(s.Val(v, "arrival"))
 	return MsgSpec{Method: "OPTIONS", RURI: "sip:bob@svc.example.com", Vias: []string{"SIP/2.0/" + tr + " 127.0.0.9:5060;branch=z9hG4bKc13"}, Routes: lines,
 		From: "<sip:alice@ua.example.net>;tag=f1", To: "<sip:bob@nomatch.example.org>", CallID: "c13", CSeq: "1 OPTIONS"}.Build()
-}
-
-func naList(l []ANameAddr) string {
-	var s []string
-	for _, e := range l {
-		s = append(s, e.String())
-	}
-	return "[" + strings.Join(s, " | ") + "]"
 }
 
 func c13Eval(v []int) (string, string, bool) {
